@@ -21,16 +21,31 @@
 (*   s    machine state after the last token (err # "": that token fails)  *)
 (*   v    "ok" / "fail": verdict of the spend if the program ends here     *)
 (*   keep number of (bottom) stack elements left at the end when v = "ok"  *)
+(*        (-1: accepted without running a script, final stack undefined)   *)
 (***************************************************************************)
-EXTENDS ScriptAlpha
+EXTENDS ScriptModes
 
-CONSTANTS MaxLen,        \* longest program
-          AlphaName,     \* token alphabet
-          InitName,      \* set of initial stacks
-          CfgName        \* which set of <<mode, flag set name, tx context name>>
+CONSTANT RunNames       \* which enumerations (RunDef) this model contains
 
-VARIABLES init, prog, res
-vars == <<init, prog, res>>
+VARIABLES run, init, prog, res
+vars == <<run, init, prog, res>>
+
+\* an enumeration: longest program, token alphabet, initial stacks, configurations
+RunDef(r) ==
+    CASE r = "small3" -> [len |-> 3, alpha |-> "small",  init |-> "empty", cfg |-> "quick"]
+      [] r = "unitq"  -> [len |-> 1, alpha |-> "all",    init |-> "unitq", cfg |-> "quick"]
+      [] r = "core2"  -> [len |-> 2, alpha |-> "core",   init |-> "empty", cfg |-> "std"]
+      [] r = "lock"   -> [len |-> 1, alpha |-> "lock",   init |-> "lock",  cfg |-> "lock"]
+      [] r = "sigu"   -> [len |-> 1, alpha |-> "sigops", init |-> "sig",   cfg |-> "std"]
+      [] r = "sig2"   -> [len |-> 2, alpha |-> "sig",    init |-> "sig1",  cfg |-> "std"]
+      \* thorough tier
+      [] r = "core3"  -> [len |-> 3, alpha |-> "core",   init |-> "empty", cfg |-> "std"]
+      [] r = "sig3"   -> [len |-> 3, alpha |-> "sig",    init |-> "sig1",  cfg |-> "std"]
+      [] r = "unit"   -> [len |-> 1, alpha |-> "all",    init |-> "rich2", cfg |-> "std"]
+      [] r = "small4" -> [len |-> 4, alpha |-> "small",  init |-> "empty", cfg |-> "quick"]
+      [] r = "core2m" -> [len |-> 2, alpha |-> "core",   init |-> "mid1",  cfg |-> "std"]
+      \* development
+      [] r = "dev"    -> [len |-> 2, alpha |-> "core",   init |-> "empty", cfg |-> "std"]
 
 NoScript(name) == <<>>
 
@@ -38,13 +53,20 @@ NoScript(name) == <<>>
 \* WITNESS, tapscript under those with TAPROOT
 ConfigsFor(ctx) == {<<"b", f, ctx>> : f \in FlagSetNames} \cup {<<"w", f, ctx>> : f \in {"5", "6", "S"}}
                    \cup {<<"t", f, ctx>> : f \in {"6", "S"}}
-Configs == CASE CfgName = "std"  -> ConfigsFor("A")
+\* the quick tier leaves out the flag sets that differ from their neighbours only
+\* in rules other runs cover (P2SH: MCSeq; CLTV / CSV: the lock run; TAPROOT: MCSeq)
+ConfigsQuick == {<<"b", f, "A">> : f \in {"0", "2", "5", "S"}} \cup {<<"w", f, "A">> : f \in {"5", "S"}}
+                \cup {<<"t", f, "A">> : f \in {"6", "S"}}
+ConfigsOf(CfgName) ==
+           CASE CfgName = "std"  -> ConfigsFor("A")
+             [] CfgName = "quick" -> ConfigsQuick
              [] CfgName = "lock" -> UNION {ConfigsFor(x) : x \in {"A", "B", "C", "D", "E"}}
 
 -----------------------------------------------------------------------------
 (* alphabets *)
 
 Ops(names) == {Op(n) : n \in names}
+SigCheckOps == {"OP_CHECKSIG", "OP_CHECKSIGVERIFY", "OP_CHECKMULTISIG", "OP_CHECKMULTISIGVERIFY", "OP_CHECKSIGADD"}
 
 StackOps == {"OP_TOALTSTACK", "OP_FROMALTSTACK", "OP_2DROP", "OP_2DUP", "OP_3DUP", "OP_2OVER", "OP_2ROT",
              "OP_2SWAP", "OP_IFDUP", "OP_DEPTH", "OP_DROP", "OP_DUP", "OP_NIP", "OP_OVER", "OP_PICK",
@@ -77,11 +99,27 @@ AlphaSmall ==
 \* every opcode byte and every push form: the unit sweep
 AlphaAll == AllOneByte \cup PushForms
 
-Alpha == CASE AlphaName = "core"  -> AlphaCore
+\* signature checking: keys in every form, one signature the program pushes
+\* itself (FindAndDelete / a signature cannot sign itself), the checking opcodes
+SigInScript == SigElem("K1", 129, 0, 0, 0)    \* ALL|ANYONECANPAY: not one of the initial-stack signatures
+AlphaSig ==
+    {Op("OP_0"), OpN(1), OpN(2), Push(K1c), Push(K1u), Push(K1h), Push(K1x), Push(K1bad), Push(K1s31), Push(K2c),
+     Push(SigInScript), PushEnc(SigInScript, "p1")}
+    \cup Ops({"OP_CHECKSIG", "OP_CHECKSIGVERIFY", "OP_CHECKMULTISIG", "OP_CHECKMULTISIGVERIFY", "OP_CHECKSIGADD",
+              "OP_CODESEPARATOR", "OP_NOT", "OP_SWAP", "OP_DUP"})
+\* the signature checking opcodes alone (unit sweep over signature stacks)
+AlphaSigOps == Ops({"OP_CHECKSIG", "OP_CHECKSIGVERIFY", "OP_CHECKMULTISIG", "OP_CHECKMULTISIGVERIFY", "OP_CHECKSIGADD"})
+AlphaLock == Ops({"OP_CHECKLOCKTIMEVERIFY", "OP_CHECKSEQUENCEVERIFY", "OP_NOP1"})
+
+AlphaOf(AlphaName) ==
+        CASE AlphaName = "core"  -> AlphaCore
            [] AlphaName = "small" -> AlphaSmall
            [] AlphaName = "all"   -> AlphaAll
+           [] AlphaName = "sig"   -> AlphaSig
+           [] AlphaName = "sigops" -> AlphaSigOps
+           [] AlphaName = "lock"  -> AlphaLock
 
-ASSUME \A t \in Alpha : TokenOK(t)
+ASSUME \A r \in RunNames : \A t \in AlphaOf(RunDef(r).alpha) : TokenOK(t)
 
 (* initial stacks *)
 ElemsRich == {E0, E1, E2, E16, E17, EM1, ENeg0, EZero1, ENonMin1, E127, E128, E256, EMax, EMin, E5B,
@@ -93,58 +131,64 @@ ElemsLock == {E0, E1, E10, E11, EM1, ENeg0, ENonMin1, E500, E501, EThr, EThrM1, 
 
 Stacks(S, k) == UNION {[1..j -> S] : j \in 0..k}
 
-InitStacks ==
+\* stacks for the signature opcodes
+SigsAll == UNION {SigVariants(v) : v \in 0..2} \cup SchnorrVariants \cup {E0, E1}
+KeysAll == {K1c, K1u, K1h, K1x, K1bad, K1s31, K2c, K2x, E0, E1}
+SigKeyStacks == {<<sg, k>> : sg \in SigsAll, k \in KeysAll}
+SigAddStacks == {<<sg, nn, k>> : sg \in SchnorrVariants \cup {E0, E1, SigBy("K1", 2)}, nn \in {E0, E1, EMax, ENonMin1, E5B},
+                                 k \in {K1x, K2x, K1c, K1s31, E0}}
+\* CHECKMULTISIG: dummy sigs.. m keys.. n
+Multi(dummy, sigs, keys) == <<dummy>> \o sigs \o <<NumElem(Len(sigs))>> \o keys \o <<NumElem(Len(keys))>>
+MultiStacks ==
+    UNION { { Multi(d, <<SigBy("K1", v)>>, <<K1c>>),
+              Multi(d, <<SigBy("K1", v)>>, <<K2c, K1c>>),
+              Multi(d, <<SigBy("K1", v)>>, <<K1c, K2c>>),
+              Multi(d, <<SigBy("K2", v)>>, <<K1c, K2c>>),
+              Multi(d, <<SigBy("K1", v), SigBy("K2", v)>>, <<K1c, K2c>>),
+              Multi(d, <<SigBy("K2", v), SigBy("K1", v)>>, <<K1c, K2c>>),            \* wrong order
+              Multi(d, <<SigBy("K1", v), SigBy("K3", v)>>, <<K1c, K2c, K3c>>),
+              Multi(d, <<SigBy("K1", v), SigBy("K1", v)>>, <<K1c, K2c, K3c>>),       \* one signature twice
+              Multi(d, <<E0, SigBy("K2", v)>>, <<K1c, K2c>>),                        \* an empty signature
+              Multi(d, <<E0>>, <<K1c>>),
+              Multi(d, <<E0>>, <<K1bad>>),                                           \* empty signature, bad key
+              Multi(d, <<SigBy("K2", v)>>, <<K1bad, K2c>>),                          \* bad key tried first
+              Multi(d, <<SigBy("K1", v)>>, <<K1c, K1bad>>),                          \* bad key never reached
+              Multi(d, <<SigBy("K1", v)>>, <<K1u>>),
+              Multi(d, <<SigBy("K1", v)>>, <<K1h>>),
+              Multi(d, <<SigElem("K1", 1, 1, v, 0)>>, <<K1c>>),                      \* high S
+              Multi(d, <<SigElem("K1", 1, 2, v, 0)>>, <<K1c>>),                      \* BER
+              Multi(d, <<SigElem("K1", 4, 0, v, 0)>>, <<K1c>>),                      \* undefined hash type
+              Multi(d, <<E1>>, <<K1c>>),                                             \* garbage signature
+              Multi(d, <<>>, <<K1c>>),                                               \* 0 of 1
+              Multi(d, <<>>, <<>>) }                                                 \* 0 of 0
+            : d \in {E0, E1}, v \in 0..1 }
+    \cup { <<E0, SigBy("K1", 0), E2, K1c, E1>>,                                        \* more signatures than keys
+           <<E0, EM1, K1c, E1>>, <<E0, E0, K1c, EM1>>,                                 \* negative counts
+           <<E0, E0, K1c, ENonMin1>>,                                                 \* non-minimal count
+           <<E0, E0, E5B>>,                                                           \* count too long
+           <<E0, E0>> \o [i \in 1..20 |-> K1c] \o <<NumElem(20)>>,                    \* 0 of 20
+           <<E0, E0>> \o [i \in 1..21 |-> K1c] \o <<NumElem(21)>>,                    \* 0 of 21
+           <<E0, SigBy("K1", 0), E1>> \o [i \in 1..20 |-> IF i = 1 THEN K1c ELSE K2c] \o <<NumElem(20)>>,  \* the last key matches
+           <<SigBy("K1", 0), E1, K1c, E1>>,                                            \* no dummy
+           <<E1, K1c, E1>>, <<K1c, E1>>, <<E1>>, <<>> }
+
+InitStacksOf(InitName) ==
     CASE InitName = "empty" -> {<<>>}
+      [] InitName = "sig"   -> SigKeyStacks \cup SigAddStacks \cup MultiStacks
+      [] InitName = "sig1"  -> {<<>>, <<SigBy("K1", 0)>>, <<SigBy("K1", 1)>>, <<SigElem("K1", 0, 64, 2, 0)>>,
+                                <<E0, SigBy("K1", 0)>>, <<E0, SigBy("K1", 1)>>, <<E0>>,
+                                <<SigElem("K1", 1, 0, 0, 1)>>, <<SigElem("K1", 1, 0, 1, 1)>>, <<SigElem("K1", 0, 64, 2, 1)>>}
       [] InitName = "rich2" -> Stacks(ElemsRich, 2) \cup [1..3 -> ElemsTiny]
                                \cup {<<E1, E2, E3, E16, E17, EM1>>, <<E1, E2, E3, E16>>}
       [] InitName = "mid2"  -> Stacks(ElemsMid, 2) \cup [1..3 -> {E0, E1, E2, EMax}]
                                \cup {<<E1, E2, E3, E16, E17, EM1>>, <<E1, E2, E3, E16>>}
       [] InitName = "mid1"  -> Stacks(ElemsMid, 1)
+      [] InitName = "unitq" -> Stacks(ElemsMid, 1) \cup [1..2 -> {E0, E1, E2, EMax}]
+                               \cup [1..3 -> {E0, E2}]
+                               \cup {<<E1, E2, E3, E16, E17, EM1>>, <<E1, E2, E3, E16>>}
       [] InitName = "lock"  -> Stacks(ElemsLock, 1)
 
 -----------------------------------------------------------------------------
-(* per configuration *)
-
-Mode(t) == t[1]
-Vm(t) == LET c0 == Config(t) IN
-         CASE Mode(t) = "b" -> Base(c0) [] Mode(t) = "w" -> V0(c0) [] Mode(t) = "t" -> Tap(c0)
-
-\* witness size of the tapscript spend: stack + script + 33-byte control block
-TapWitSize(ini, plen) == VarIntLen(Len(ini) + 2) + SumSizes(ini) + VarIntLen(plen) + plen + 34
-
-\* what ends verification before the program runs: "" (nothing), "ok", "fail"
-Pre(t, ini, p) ==
-    CASE Mode(t) = "b" ->
-            IF \E i \in 1..Len(ini) : ini[i].n > 520 THEN "fail"
-            ELSE IF ScriptLen([i \in 1..Len(ini) |-> MinPush(ini[i])]) > 10000 THEN "fail"
-            ELSE IF ScriptLen(p) > 10000 THEN "fail"
-            ELSE ""
-      [] Mode(t) = "w" ->
-            IF ScriptLen(p) > 10000 THEN "fail"
-            ELSE IF \E i \in 1..Len(ini) : ini[i].n > 520 THEN "fail"
-            ELSE ""
-      [] Mode(t) = "t" ->
-            IF SuccessScan(p) = "success" THEN (IF "DISCOURAGE_OP_SUCCESS" \in FlagSet(t[2]) THEN "fail" ELSE "ok")
-            ELSE IF Len(ini) > 1000 THEN "fail"
-            ELSE IF \E i \in 1..Len(ini) : ini[i].n > 520 THEN "fail"
-            ELSE ""
-
-\* verdict of the spend whose program p ends in state s (after EndOfScript)
-Fin(t, ini, p, s) ==
-    LET c0 == Config(t)  no == [v |-> "fail", keep |-> 0] IN
-    IF s.err # "" THEN no
-    ELSE IF Mode(t) = "b" THEN
-        IF Len(s.st) = 0 \/ ~AsBool(s.st[Len(s.st)]) THEN no
-        ELSE IF Has(c0, "WITNESS") /\ IsWitnessProgram(p) THEN
-            IF Len(ini) > 0 THEN no
-            ELSE IF VerifyWitnessProgram(c0, <<>>, WitVersion(p), WitProgram(p), FALSE).ok THEN [v |-> "ok", keep |-> 1]
-            ELSE no
-        ELSE IF Has(c0, "P2SH") /\ IsP2SH(p) /\ ~Assert(FALSE, <<"enumerated program is a satisfied P2SH template", p>>) THEN no
-        ELSE IF Has(c0, "CLEANSTACK") /\ Len(s.st) # 1 THEN no
-        ELSE [v |-> "ok", keep |-> Len(s.st)]
-    ELSE IF Len(s.st) = 1 /\ AsBool(s.st[1]) THEN [v |-> "ok", keep |-> 1]
-    ELSE no
-
 \* outcome record (without cf)
 Out(x, s, f) == [x |-> x, s |-> s, v |-> f.v, keep |-> f.keep]
 Skip(v) == Out("skip", Failed(""), [v |-> v, keep |-> 0])
@@ -177,19 +221,23 @@ Alive(g) == g.x = "run" /\ g.s.err = ""
 
 -----------------------------------------------------------------------------
 Init ==
-    /\ init \in InitStacks
+    /\ run \in RunNames
+    /\ init \in InitStacksOf(RunDef(run).init)
     /\ prog = <<>>
-    /\ res = Group({<<t, Start(t, init)>> : t \in Configs})
+    /\ res = Group({<<t, Start(t, init)>> : t \in ConfigsOf(RunDef(run).cfg)})
 
 Extend(tok) ==
-    /\ Len(prog) < MaxLen
+    /\ Len(prog) < RunDef(run).len
     /\ {g \in res : Alive(g)} # {}
     /\ (Len(prog) > 0 => ~prog[Len(prog)].tr)
+    \* a signature pushed after a signature check could change what that
+    \* earlier check signed or deleted: not enumerated
+    /\ (tok.op = "PUSH" /\ tok.e.t = "sig") => ~\E j \in 1..Len(prog) : prog[j].op \in SigCheckOps
     /\ prog' = Append(prog, tok)
-    /\ init' = init
+    /\ UNCHANGED <<run, init>>
     /\ res' = Group(UNION { {<<t, Step(t, init, prog, g.s, tok)>> : t \in g.cf} : g \in {h \in res : Alive(h)} })
 
-Next == \E tok \in Alpha : Extend(tok)
+Next == \E tok \in AlphaOf(RunDef(run).alpha) : Extend(tok)
 
 Spec == Init /\ [][Next]_vars
 
